@@ -190,6 +190,12 @@ def seeded_for(prop):
     return out
 
 
+def neutral_patches():
+    """behaviour-preserving refactors of whole modules (written independently of the checker): every check must
+    stay silent on them"""
+    return [(os.path.basename(os.path.dirname(p)), p) for p in sorted(glob.glob(os.path.join(ROOT, "neutral", "*", "patch.diff")))]
+
+
 def run(prop, ctx, seed=0):
     from verifkit.core import Outcome
     try:
@@ -203,6 +209,9 @@ def run(prop, ctx, seed=0):
     seeded = seeded_for(prop)
     jobs += [(prop, src, "patch", p) for _, p in seeded]
     names = [(v.name, v.kind, v) for v in variants] + [("seeded/" + n, "mutant", None) for n, _ in seeded]
+    neutral = neutral_patches()
+    jobs += [(prop, src, "patch", p) for _, p in neutral]
+    names += [("neutral/" + n, "twin", None) for n, _ in neutral]
     errors, rows = [], []
     out = Outcome("SELF", "checker self-validation: breaking single-edit variants of the current tree must be "
                           "reported with the expected rule, behaviour-preserving twins must stay silent", floor=0)
